@@ -1,4 +1,5 @@
 mod alloc_watch;
+mod clock;
 mod exec;
 mod frames;
 mod logsub;
@@ -44,6 +45,18 @@ fn main() {
         usage();
     }
     runner::install_panic_hook();
+    {
+        // the clock seam must be in effect (std's clocks go through this binary's `clock_gettime`)
+        let a = std::time::Instant::now();
+        let b = std::time::SystemTime::now();
+        clock::jump(5_000_000_000);
+        let (d1, d2) = (a.elapsed(), b.elapsed().unwrap_or_default());
+        clock::reset();
+        if d1 < std::time::Duration::from_secs(5) || d2 < std::time::Duration::from_secs(5) {
+            eprintln!("HARNESS-ERROR: the simulated clock is not in effect (Instant advanced by {d1:?}, SystemTime by {d2:?} after a 5 s jump)");
+            std::process::exit(2);
+        }
+    }
     logsub::install();
     // A replay file is re-run with the tier it was recorded in (some properties size their
     // scenarios by tier, so the same tape would otherwise describe another scenario).
